@@ -53,7 +53,7 @@ class Lock:
 
 def run(cmd, cwd=None, env=None, timeout=None, inp=None):
     p = subprocess.run(cmd, cwd=cwd, env=env, timeout=timeout, input=inp,
-                       stdout=subprocess.PIPE, stderr=subprocess.STDOUT, text=True)
+                       stdout=subprocess.PIPE, stderr=subprocess.STDOUT, text=True, errors="replace")
     return p.returncode, p.stdout
 
 
@@ -575,10 +575,16 @@ def main():
     for iss in spec_issues + diff_issues:
         if iss["case"] in handled_cases:
             continue
+        ops = cases[iss["case"]]["ops"]
+        if iss["kind"] == "spec":
+            # a listed finding is recognised on the unshrunk case already (no shrinking, no budget)
+            k0 = next((k for k in known if matches_known(k, iss["why"], ops[: iss["step"] + 1])), None)
+            if k0 is not None:
+                known_hit[k0["id"]] = k0
+                continue
         handled_cases.add(iss["case"])
         if len(handled_cases) > 12 or time.time() > budget_end:
             break
-        ops = cases[iss["case"]]["ops"]
         sops, sissue, scase = (ops, iss, cases[iss["case"]])
         hidx = cases[iss["case"]].get("harness", 0)
         if exe and iss.get("why") != "violated:process-died" and not cfg.get("no_shrink"):
@@ -635,6 +641,12 @@ def main():
                 for iss in compare(cfg, wc, wm):
                     if iss["kind"] == "spec":
                         ops = wc[iss["case"]]["ops"]
+                        k0 = next((k for k in known if matches_known(k, iss["why"], ops[: iss["step"] + 1])), None)
+                        if k0 is not None:
+                            known_hit[k0["id"]] = k0
+                            continue
+                        if time.time() > t_end:
+                            break
                         s2, i2, c2 = shrink(cfg, pid, wexe, wcfg, ops, "spec", tmp, budget_s=30)
                         if i2 is None:
                             s2, i2, c2 = ops, iss, wc[iss["case"]]
